@@ -51,6 +51,11 @@ func SwarmProgCfg(r *Rand) ProgCfg {
 	if r.Chance(0.3) {
 		c.Tree.Strs = append(append([]string{}, PlainStrs...), DollarStrs...)
 	}
+	if r.Chance(0.15) {
+		// medium-long values in scripts whose characters take several bytes:
+		// byte length and character count differ by a factor of two or three
+		c.Tree.Strs = append(append([]string{}, c.Tree.Strs...), LongNonASCII...)
+	}
 	return c
 }
 
